@@ -1,10 +1,12 @@
 package props
 
 import (
+	"bytes"
 	"crypto/sha256"
 	"encoding/hex"
 	"encoding/json"
 	"fmt"
+	"math/big"
 	"os"
 	"os/exec"
 	"path/filepath"
@@ -417,6 +419,19 @@ func RunC18(t *testing.T) {
 	defer st.Write()
 	conc := 3
 	var prev *c18case
+	// directed first: requests a handler could be tempted to write into (see c18requestCases)
+	if cs, err := c18requestCases(); err != nil {
+		t.Fatalf("HARNESS: %v", err)
+	} else {
+		for _, c := range cs {
+			if v := c18check(c, nil, 2); v != nil {
+				saveFail("C18", "c18", c18replayCase{Case: c}, v)
+				t.Fatalf("VIOLATION %s", v)
+			}
+			cc := c
+			st.Case("", func() any { return map[string]any{"genesis": cc.Gen, "blocks": len(cc.Blocks), "first_block": cc.Blocks[0]} }, "prelude:request-objects")
+		}
+	}
 	rapid.Check(t, func(rt *rapid.T) {
 		c, w := genC18(rt, 10)
 		// generation itself was replay #0: compare it too (through the step records' app hashes is
@@ -858,4 +873,59 @@ func genesisVerdictStable(c *c18case) *Viol {
 		}
 	}
 	return nil
+}
+
+// c18requestCases: short fixed histories whose requests invite in-place edits: attestations whose recovery byte is the
+// true id plus 54 or 81 (a normalisation applied to the caller's buffer gets one step further each time the same
+// object is executed), replacements whose new body and caller are longer and shorter than the original's, a
+// deposit replacement. The shared-decode replays of c18check execute each of them up to four times on the same objects.
+func c18requestCases() ([]*c18case, error) {
+	gs := enumGenesis([4]int{0, 1, 2, 3})
+	w, err := sim.NewWorld(gs)
+	if err != nil {
+		return nil, err
+	}
+	by := sim.Acct(4)
+	k := attest.K(0)
+	in := func(nonce uint64) []byte {
+		m, _ := refcodec.EncodeMessage(&refcodec.Message{Version: 0, Source: 7, Dest: 4, Nonce: nonce, Sender: sim.Pad32([]byte{1}), Recip: sim.Pad32([]byte{2}), Caller: make([]byte, 32), Body: []byte("request objects")})
+		return m
+	}
+	own, _ := refcodec.EncodeMessage(&refcodec.Message{Version: 0, Source: 4, Dest: 1, Nonce: 6, Sender: sim.Pad32(sim.AcctBytes(4)), Recip: sim.Pad32([]byte{3}), Caller: sim.Pad32([]byte{0xca}), Body: []byte("the original body, forty-one bytes long..")})
+	body, _ := refcodec.EncodeBurn(&refcodec.Burn{Version: 0, BurnToken: attest.Keccak([]byte("uusdc")), MintRecip: sim.Pad32([]byte{9}), Amount: big.NewInt(5), MsgSender: sim.Pad32(sim.AcctBytes(4))})
+	dep, _ := refcodec.EncodeMessage(&refcodec.Message{Version: 0, Source: 4, Dest: 0, Nonce: 7, Sender: sim.Pad32(sim.ModuleAddrBytes()), Recip: sim.Pad32([]byte{0xbb, 1}), Caller: make([]byte, 32), Body: body})
+	att := func(m []byte, off byte) []byte {
+		a := attest.Sign(m, k, attest.SigStyle{})
+		a[64] += off
+		return a
+	}
+	blocks := [][]sdk.Msg{
+		{
+			&types.MsgReceiveMessage{From: by, Message: in(1), Attestation: att(in(1), 54)},
+			&types.MsgReceiveMessage{From: by, Message: in(2), Attestation: att(in(2), 81)},
+			&types.MsgReplaceMessage{From: by, OriginalMessage: own, OriginalAttestation: att(own, 0), NewMessageBody: []byte("short"), NewDestinationCaller: sim.Pad32([]byte{0xcb})},
+		},
+		{
+			&types.MsgReplaceMessage{From: by, OriginalMessage: own, OriginalAttestation: att(own, 27), NewMessageBody: bytes.Repeat([]byte("a longer body than the original one "), 4), NewDestinationCaller: make([]byte, 32)},
+			&types.MsgReplaceDepositForBurn{From: by, OriginalMessage: dep, OriginalAttestation: att(dep, 0), NewDestinationCaller: sim.Pad32([]byte{0xcc}), NewMintRecipient: sim.Pad32([]byte{8})},
+			&types.MsgReceiveMessage{From: by, Message: in(1), Attestation: att(in(1), 27)},
+		},
+		{
+			&types.MsgReplaceDepositForBurn{From: by, OriginalMessage: dep, OriginalAttestation: att(dep, 54), NewDestinationCaller: make([]byte, 32), NewMintRecipient: sim.Pad32([]byte{7})},
+			&types.MsgReceiveMessage{From: by, Message: in(2), Attestation: att(in(2), 108)},
+		},
+	}
+	c := &c18case{Gen: gs}
+	for _, msgs := range blocks {
+		blk := c18block{}
+		for _, m := range msgs {
+			bz, err := w.Chain.EncodeTx([]sdk.Msg{m})
+			if err != nil {
+				return nil, err
+			}
+			blk.Txs = append(blk.Txs, hex.EncodeToString(bz))
+		}
+		c.Blocks = append(c.Blocks, blk)
+	}
+	return []*c18case{c}, nil
 }
